@@ -12,7 +12,7 @@ Usage: ir2c.py in.ll -o out.c --entry h_foo [--entry h_bar] [--override SYM] [--
 * Anything not understood is a hard error naming the instruction; nothing is dropped silently
   except the no-op intrinsics listed in NOP_INTRINSICS.
 """
-import re, sys, struct, argparse
+import re, sys, struct, argparse, os
 
 class IRError(Exception):
     pass
@@ -202,6 +202,15 @@ class CG:
         # instead of byte arrays. Same size and layout (checked with _Static_assert in the output).
         self.retyped = {}
         import os as _os
+        # std::string's SSO union { i64 capacity; [8 x i8] } (third member of basic_string<char>): declared as 16 plain bytes.
+        # The characters live there; as a pointer/word-typed slot every character read was a byte_extract from a word that CBMC
+        # does not fold (measured: a std::map<std::string,int> with two concrete keys did not finish symbolic execution).
+        self.sso_unions = set()
+        for name, ent in ([] if _os.environ.get('IR2C_NO_SSO') else mod.structs.items()):
+            if name.startswith('class.std::__cxx11::basic_string') and ent[0] is not None and len(ent[0]) == 3 and ent[0][2][0] == 'struct' and ent[0][2][1].startswith('union.'):
+                u = mod.structs.get(ent[0][2][1])
+                if u and u[0] is not None and list(u[0]) == [('int', 64), ('array', 8, ('int', 8))]:
+                    self.sso_unions.add(ent[0][2][1])
         for name, ent in ([] if _os.environ.get('IR2C_NO_RETYPE') else mod.structs.items()):
             if name.endswith('::PlacementBuffer') and ent[0] is not None and len(ent[0]) == 1 and ent[0][0][0] == 'array' \
                and ent[0][0][2] == ('int', 8) and 'nostd::shared_ptr<' in name:
@@ -288,7 +297,7 @@ class CG:
     def is_union_slot(self, sname, ftype):
         """clang represents a C++ union as a struct named union.* whose first member stands for all alternatives;
         an 8-byte double/i64 member there may hold a pointer: declare it pointer-typed so CBMC keeps provenance"""
-        return sname.startswith('union.') and ftype in (('double',), ('int', 64))
+        return sname.startswith('union.') and sname not in self.sso_unions and ftype in (('double',), ('int', 64))
     def struct_name(self, name):
         if name not in self.struct_ids:
             cid = 'struct S%d_%s' % (len(self.struct_ids), re.sub(r'[^A-Za-z0-9]', '_', name)[:40])
@@ -307,6 +316,9 @@ class CG:
         if name in self.retyped:
             wt, n = self.retyped[name]
             self._pending_defs.append((cid, ('RETYPED', wt, n), packed))
+            return
+        if name in self.sso_unions:
+            self._pending_defs.append((cid, ('SSO',), packed))
             return
         self._pending_defs.append((cid, fields, packed))
     def lstruct_name(self, t):
@@ -346,6 +358,8 @@ class CG:
                 el = self.ctype(fields[2]); done_fields[cid] = ('ARRAY', fields[1], el, fields[2])
             elif fields and fields[0] == 'RETYPED':
                 done_fields[cid] = ('RETYPED', self.ctype(fields[1]), fields[1], fields[2])
+            elif fields and fields[0] == 'SSO':
+                done_fields[cid] = ('SSO',)
             else:
                 uni = cid in self.union_cids
                 done_fields[cid] = ('STRUCT', [(('void*' if uni and f in (('double',), ('int', 64)) else self.ctype(f)), f) for f in fields], packed)
@@ -371,7 +385,9 @@ class CG:
             if cid in stack: raise IRError('recursive by-value type ' + cid)
             d = defs.get(cid)
             if d is None: return
-            if d[0] == 'ARRAY':
+            if d[0] == 'SSO':
+                pass
+            elif d[0] == 'ARRAY':
                 for dep in self.byvalue_deps(d[3]): visit(dep, stack + (cid,))
             elif d[0] == 'RETYPED':
                 for dep in self.byvalue_deps(d[2]): visit(dep, stack + (cid,))
@@ -382,7 +398,9 @@ class CG:
         for cid in list(defs): visit(cid)
         for cid in order:
             d = defs[cid]
-            if d[0] == 'ARRAY':
+            if d[0] == 'SSO':
+                lines.append('%s { uint8_t a[16]; };' % cid)
+            elif d[0] == 'ARRAY':
                 n = d[1]
                 lines.append('%s { %s a[%d]; };' % (cid, d[2], n if n > 0 else 0))
             elif d[0] == 'RETYPED':
@@ -394,6 +412,11 @@ class CG:
         # typedefs for function pointer types come after forward decls of structs (pointers only need fwd)
         tds = [x for kind, x in self.out_types if kind == 'typedef']
         return fwd, tds, lines
+
+def toks_addr_name(toks):
+    """SSA name of the address operand of a load instruction (token list), or None"""
+    names = [x[1] for x in toks if x[0] == 'local']
+    return names[1] if len(names) >= 2 else None
 
 # ----------------------------------------------------------------------------- module parsing
 LINKAGE = {'private','internal','available_externally','linkonce','weak','common','appending','extern_weak',
@@ -834,6 +857,9 @@ class Gen:
                 if cur_t[1] in cg.retyped:
                     cur_t = ent[0][fi]
                     e = '((%s)(%s))' % (cg.ctype(PTR(cur_t)), e)
+                elif cur_t[1] in cg.sso_unions:
+                    cur_t = ent[0][fi]
+                    e = '((%s)&(%s)->a[%d])' % (cg.ctype(PTR(cur_t)), e, 0 if fi == 0 else 8)
                 elif cg.is_union_slot(cur_t[1], ent[0][fi]):
                     e = '((%s)&(%s)->f%d)' % (cg.ctype(PTR(ent[0][fi])), e, fi); cur_t = ent[0][fi]
                 else:
@@ -941,25 +967,7 @@ class Gen:
                             if not k: continue
                         if pat_store.match(bt) and k == 1: uses += 1
                         else: ok = False; break
-                    if ok and uses >= 1:
-                        # a value loaded from a genuine i64/double *field* (address formed by getelementptr / a parameter, not by a
-                        # type-punning bitcast) and stored to such fields is an integer: keep it integer-typed. Measured: an integer
-                        # option copied through a void* temporary became (uint64_t)(void*)1, which CBMC does not fold, and every
-                        # comparison against it turned into a symbolic branch (batch processor Export).
-                        def punned(addr):
-                            for bt2 in body_text:
-                                if bt2.startswith(addr + ' = '):
-                                    return bt2.startswith(addr + ' = bitcast') or ' = phi ' in bt2[:len(addr) + 8] or bt2.startswith(addr + ' = select') or bt2.startswith(addr + ' = load') or bt2.startswith(addr + ' = inttoptr') or bt2.startswith(addr + ' = call')
-                            return False      # parameter or global: typed as declared
-                        addrs = []
-                        m0 = re.search(r'= load (?:i64|double) , (?:i64|double) ?\* (%(?:"[^"]*"|[\w.\-]+))', ' '.join(x[1] for x in toks))
-                        if m0: addrs.append(m0.group(1))
-                        for bt in body_text:
-                            if pat_store.match(bt):
-                                m1 = re.search(r', (?:i64|double) ?\* (%(?:"[^"]*"|[\w.\-]+))', bt)
-                                if m1: addrs.append(m1.group(1))
-                        if not addrs or any(punned(a_) for a_ in addrs) or self.opts.__dict__.get('raw_all'):
-                            fg.rawmove.add(nm)
+                    if ok and uses >= 1: fg.rawmove.add(nm)
         # pass B: emit -- blocks in reverse post-order of the CFG, so that the only backward gotos of the generated C are
         # real loop back edges (LLVM's textual order may put a latch/continue block in the middle of the loop body; every
         # later jump to it is then a backward goto, which CBMC unwinds as an additional nested loop and whose unwinding
@@ -1119,6 +1127,9 @@ class Gen:
                 p.accept('inrange')
                 ie, it = self.typed_value(p, fg); idx.append((ie, it))
             e, rt = self.gep(base, bt, idx)
+            if '*)' not in e and rt in (('int', 64), ('double',)):
+                if not hasattr(fg, 'plain_addr'): fg.plain_addr = set()
+                fg.plain_addr.add(d)      # address of a genuine i64/double field: no cast, no union slot, no byte offset on the way
             self.define(fg, d, PTR(rt), e, code); return
         if op == 'load':
             atomic = p.accept('atomic'); p.accept('volatile')
@@ -1130,6 +1141,11 @@ class Gen:
                 if t == ('int', 64) and self.ptr_atomic(fg, toks):
                     self.define(fg, d, t, '((uint64_t)(uintptr_t)__at_loadp((void**)%s, %d))' % (a, ORDERS[order]), code); return
                 self.define(fg, d, t, self.atomic_call('load', t, [a], order), code); return
+            if d in fg.rawmove and not os.environ.get('IR2C_RAW_ALL') and toks_addr_name(toks) in getattr(fg, 'plain_addr', ()):
+                # the value comes from a genuine integer field (address formed by getelementptr only, emitted without any cast): keep it an
+                # integer. Measured: an integer option copied through a void* temporary became (uint64_t)(void*)1, which CBMC does not
+                # fold, and every comparison against it turned into a symbolic branch (batch processor Export).
+                fg.rawmove.discard(d)
             if d in fg.rawmove:
                 dn = fg.lname(d); fg.decls[dn] = 'void*'; fg.vtypes[d] = t
                 code.append('%s = (*(void**)%s);' % (dn, a)); return
@@ -1251,6 +1267,7 @@ class Gen:
 
     def agg_field(self, e, t, i):
         if t[0] == 'struct' and t[1] in self.cg.retyped: raise IRError('extract/insertvalue on retyped placement buffer')
+        if t[0] == 'struct' and t[1] in self.cg.sso_unions: raise IRError('extract/insertvalue on std::string SSO union')
         if t[0] == 'struct' and self.cg.is_union_slot(t[1], self.mod.structs[t[1]][0][i]): raise IRError('extract/insertvalue on union slot')
         if t[0] == 'struct': return '%s.f%d' % (e, i), self.mod.structs[t[1]][0][i]
         if t[0] == 'lstruct': return '%s.f%d' % (e, i), t[1][i]
